@@ -820,6 +820,8 @@ class Obs:
         else:
             if isinstance(y, np.ndarray):
                 return np.array([self - o for o in y])
+            elif isinstance(y, complex):
+                return CObs(self, 0) - y
             elif y.__class__.__name__ in ['Corr', 'CObs']:
                 return NotImplemented
             else:
@@ -840,6 +842,8 @@ class Obs:
         else:
             if isinstance(y, np.ndarray):
                 return np.array([self / o for o in y])
+            elif isinstance(y, complex):
+                return CObs(self, 0) / y
             elif y.__class__.__name__ in ['Corr', 'CObs']:
                 return NotImplemented
             else:
@@ -851,6 +855,8 @@ class Obs:
         else:
             if isinstance(y, np.ndarray):
                 return np.array([o / self for o in y])
+            elif isinstance(y, complex):
+                return y / CObs(self, 0)
             elif y.__class__.__name__ in ['Corr', 'CObs']:
                 return NotImplemented
             else:
